@@ -22,7 +22,8 @@ struct Alloc {
 	bool trace = false;            // record the call stack of every allocation (leak attribution)
 	std::unordered_map<void *, std::vector<void *>> stacks;
 	std::string last_fail_site;     // innermost libksi frames of the allocation that was made to fail last
-	void reset_all() { count = 0; armed = false; fail_at.clear(); fail_from = 0; fired = 0; live.clear(); serial = 0; bad_free = 0; stacks.clear(); last_fail_site.clear(); }
+	std::vector<std::string> fail_sites; // three innermost libksi frames of every allocation that was made to fail (in order, no repeats)
+	void reset_all() { count = 0; armed = false; fail_at.clear(); fail_from = 0; fired = 0; live.clear(); serial = 0; bad_free = 0; stacks.clear(); last_fail_site.clear(); fail_sites.clear(); }
 	void reset_counter() { count = 0; fired = 0; }
 };
 
